@@ -54,6 +54,12 @@ def nontrivial(req, impl):
     return req.startswith("c25\t") and not impl.startswith("0") and impl != "nograph"
 
 
+# one reader with refetchable selections at [.., sfxa, sfxb] and [.., sfxb] (stream `suffix`) / [best, friend] and [friend] (witness
+# suffix-paths): the second path is a proper suffix of the first, which sorts before it
+_SFX_GEN = "/sfxa/sfxb/__refetch".encode().hex()
+_SFX_WIT = "/Card/best/friend/__refetch".encode().hex()
+
+
 def classify(req, impl):
     k = _ops.case_classes(req, impl)
     if k is not None:
@@ -66,6 +72,8 @@ def classify(req, impl):
         out = ["refetchables=0" if n == 0 else ("refetchables=1-3" if n <= 3 else "refetchables=4+")]
         if "656e7472793a" in impl:
             out.append("loadable")
+        if _SFX_GEN in impl or _SFX_WIT in impl:
+            out.append("suffix-paths")
         return out
     return None
 
@@ -82,4 +90,7 @@ def check_distribution(dist, cases):
         return f"only {some}/{eps} entrypoints reach a refetchable selection"
     if dist.get("class:refetchables=4+", 0) == 0:
         return "no entrypoint with several refetchable selections"
+    if dist.get("class:suffix-paths", 0) < 3:
+        return (f"only {dist.get('class:suffix-paths', 0)} entrypoints reach a reader whose refetch paths contain a proper suffix of an "
+                "earlier-sorting path (stream `suffix`, witness suffix-paths)")
     return None
